@@ -89,15 +89,24 @@ inline Solution solve(LD g, State L, State R) {
   int guard = 0;
   while (F(hi) < 0.L && guard++ < 20000)
     hi *= 2.L;
-  // f(0) = -2(aL+aR)/(g-1) + du < 0 (no vacuum generation)
-  for (int it = 0; it < 400; ++it) {
-    const LD mid = 0.5L * (lo + hi);
-    if (mid == lo || mid == hi)
-      break;
-    if (F(mid) < 0.L)
-      lo = mid;
-    else
-      hi = mid;
+  // f(0) = -2(aL+aR)/(g-1) + du < 0 (no vacuum generation).  Bisect in
+  // t = ln p so that roots many hundred decades below pL, pR are resolved to
+  // full relative precision.
+  LD tlo = logl(1e-4930L), thi = logl(hi);
+  if (F(expl(tlo)) >= 0.L) {
+    lo = hi = 0.L; // root below the representable range
+  } else {
+    for (int it = 0; it < 300; ++it) {
+      const LD mid = 0.5L * (tlo + thi);
+      if (mid == tlo || mid == thi)
+        break;
+      if (F(expl(mid)) < 0.L)
+        tlo = mid;
+      else
+        thi = mid;
+    }
+    lo = expl(tlo);
+    hi = expl(thi);
   }
   s.pstar = 0.5L * (lo + hi);
   if (s.pstar < 1e-4000L) {
@@ -140,9 +149,11 @@ inline Solution solve(LD g, State L, State R) {
 
 inline State lfan(const Solution &s, LD xi) {
   const LD g = s.g;
-  const LD base =
+  LD base =
       2.L / (g + 1.L) + (g - 1.L) / ((g + 1.L) * s.aL) * (s.L.u - xi);
   State o;
+  if (base < 0.L)
+    base = 0.L; // round-off at the vacuum front
   o.rho = s.L.rho * powl(base, 2.L / (g - 1.L));
   o.u = 2.L / (g + 1.L) * (s.aL + 0.5L * (g - 1.L) * s.L.u + xi);
   o.p = s.L.p * powl(base, 2.L * g / (g - 1.L));
@@ -150,9 +161,11 @@ inline State lfan(const Solution &s, LD xi) {
 }
 inline State rfan(const Solution &s, LD xi) {
   const LD g = s.g;
-  const LD base =
+  LD base =
       2.L / (g + 1.L) - (g - 1.L) / ((g + 1.L) * s.aR) * (s.R.u - xi);
   State o;
+  if (base < 0.L)
+    base = 0.L; // round-off at the vacuum front
   o.rho = s.R.rho * powl(base, 2.L / (g - 1.L));
   o.u = 2.L / (g + 1.L) * (-s.aR + 0.5L * (g - 1.L) * s.R.u + xi);
   o.p = s.R.p * powl(base, 2.L * g / (g - 1.L));
